@@ -483,7 +483,7 @@ class MultiportILVTMemory(BaseMultiportMemory):
         m.submodules.ilvt = ilvt = self.memory_type(
             shape=shape,
             depth=self.depth,
-            init=self.init,
+            init=[],  # the table starts at 0: bank 0, which holds the initial contents, is live everywhere
             src_loc_at=self.src_loc + 1,
         )
 
